@@ -71,17 +71,22 @@ async def with_shipped_evaluators(mode: str, cer, factory, text: Optional[str] =
     run factory() with the library's own ready-made evaluators bound instead of the harness ones:
       mode "hardcoded": create_hardcoded_evaluators(cer)  (dictionary based)
       mode "cer":       create_content_evaluation_result_based_evaluators(), the result travelling in context local evaluatable data
+      mode "cer-long-lived": the same evaluators, but ONE EvaluatableData object whose body is refreshed in place from call to call
+      mode "instances": user evaluator classes that keep their answers in instance state, new instances for every call
     ("ok", value) | ("exc", exception); the harness evaluators are re-installed afterwards
     """
     from ahbicht.content_evaluation.fc_evaluators import text_to_be_evaluated_by_format_constraint
 
     if mode == "hardcoded":
         E.install_hardcoded(cer)
+    elif mode == "instances":
+        E.install_instance_state({k: E.REF[v] for k, v in cer.requirement_constraints.items()}, {k: v.format_constraint_fulfilled for k, v in cer.format_constraints.items()}, cer.hints)
     else:
         E.install_cer_based()
+        E.LONG_LIVED[0] = mode == "cer-long-lived"
 
     async def go():
-        if mode != "hardcoded":
+        if mode in ("cer", "cer-long-lived"):
             E.set_cer(cer)
         text_to_be_evaluated_by_format_constraint.set(text)
         return await factory()
@@ -89,4 +94,5 @@ async def with_shipped_evaluators(mode: str, cer, factory, text: Optional[str] =
     try:
         return await sched.run_under(None, go)
     finally:
+        E.LONG_LIVED[0] = False
         E.install()
